@@ -47,20 +47,27 @@ def parseStage? (s : List Char) : Option Nat :=
   | ['x', '3'] => some 3
   | _ => none
 
-/-- the signature oracle: does the descriptor denote the key's honest signature over exactly the message? -/
-def parseSig? (stage key blk num mround mset : Nat) (cs : List Char) : Option Bool :=
+/-- the signature oracle: does the descriptor denote the key's honest signature over exactly the message (whose round
+and set id are known when the message is delivered)? -/
+def parseSig? (stage key blk num : Nat) (cs : List Char) : Option (Nat → Nat → Bool) :=
   match cs with
-  | ['o', 'k'] => some true
-  | ['z'] => some false
+  | ['o', 'k'] => some fun _ _ => true
+  | ['z'] => some fun _ _ => false
   | 'b' :: 'a' :: 'd' :: rest => do
     let t ← canonNat? rest
-    if t < 8 then some false else none
-  | 's' :: 't' :: rest => do let q ← parseStage? rest; some (q == stage)
-  | 'r' :: rest => do let q ← canonNat? rest; some (q == mround)
-  | 's' :: rest => do let q ← canonNat? rest; some (q == mset)
-  | 'k' :: rest => do let k ← parseKey? rest; some (k == key)
-  | 'o' :: rest => do let (b, m) ← parseVote? rest; some (b == blk && m == num)
+    if t < 8 then some fun _ _ => false else none
+  | 's' :: 't' :: rest => do let q ← parseStage? rest; some fun _ _ => q == stage
+  | 'r' :: rest => do let q ← canonNat? rest; some fun mround _ => q == mround
+  | 's' :: rest => do let q ← canonNat? rest; some fun _ mset => q == mset
+  | 'k' :: rest => do let k ← parseKey? rest; some fun _ _ => k == key
+  | 'o' :: rest => do let (b, m) ← parseVote? rest; some fun _ _ => b == blk && m == num
   | _ => none
+
+/-- an op as written on the line: `=` (the Service's current round / set id) is resolved when the op runs -/
+inductive POp where
+  | msg (stage key blk num : Nat) (sig : Nat → Nat → Bool) (mr ms : Option Nat)
+  | own (stage blk : Nat)
+  | init (i : Init)
 
 structure Hdr where
   n : Option Nat := none
@@ -106,26 +113,36 @@ def hdrTok (h : Hdr) (tok : String) : Option Hdr :=
     | _ => none
   | _ => none
 
-def parseRS? (dflt : Nat) (s : String) : Option Nat :=
-  if s = "=" then some dflt else (canonNat? s.toList).filter (· ≤ 1000)
+def parseRS? (s : String) : Option (Option Nat) :=
+  if s = "=" then some none else ((canonNat? s.toList).filter (· ≤ 1000)).map some
 
-def parseOp? (c : Cfg) (s : String) : Option Op :=
+def authKey? (cs : List Char) : Option Nat :=
+  (parseKey? cs).filter (fun x => x < 16 ∨ (100 ≤ x ∧ x < 104))
+
+def parseOp? (c : Cfg) (s : String) : Option POp :=
   match words s with
   | ["m", st, id, v, sig, mr, ms] => do
     let stage ← parseStage? st.toList
     let key ← parseKey? id.toList
     let (blk, num) ← parseVote? v.toList
-    let mround ← parseRS? c.round mr
-    let mset ← parseRS? c.set ms
-    let ok ← parseSig? stage key blk num mround mset sig.toList
-    some (.msg ⟨stage, key, blk, num, ok, mround, mset⟩)
+    let mround ← parseRS? mr
+    let mset ← parseRS? ms
+    let ok ← parseSig? stage key blk num sig.toList
+    some (.msg stage key blk num ok mround mset)
   | ["own", st, b] => do
     let stage ← parseStage? st.toList
     let (blk, _) ← parseVote? (b.toList ++ [':', '0'])
-    if stage ≤ 1 ∧ blk < c.t.size ∧ c.t.le c.fin blk then some (.own stage blk) else none
+    if stage ≤ 1 then some (.own stage blk) else none
+  | ["init", cur, auths, hr, hs, h] => do
+    let cur ← (canonNat? cur.toList).filter (· ≤ 1000)
+    let as ← (splitOnChar ',' auths.toList).mapM authKey?
+    let hr ← (canonNat? hr.toList).filter (· ≤ 1000)
+    let hs ← (canonNat? hs.toList).filter (· ≤ 1000)
+    let (blk, _) ← parseVote? (h.toList ++ [':', '0'])
+    if 1 ≤ as.length ∧ as.length ≤ 16 ∧ blk < c.t.size then some (.init ⟨cur, as, hr, hs, blk⟩) else none
   | _ => none
 
-def parseCase? (line : String) : Option (Cfg × List Op) :=
+def parseCase? (line : String) : Option (Cfg × List POp) :=
   match splitOnChar '|' line.toList with
   | hd :: b :: more => do
     let body := String.ofList (b ++ (more.map (fun m => '|' :: m)).flatten)
@@ -133,7 +150,7 @@ def parseCase? (line : String) : Option (Cfg × List Op) :=
     let n ← h.n; let me ← h.me; let base ← h.base; let tree ← h.tree; let fin ← h.fin
     let chg ← h.chg; let R ← h.R; let S ← h.S
     let _ ← if fin ≥ tree.size then none else some ()
-    let c : Cfg := ⟨n, me, base, tree, fin, chg, R, S, false⟩
+    let c : Cfg := ⟨List.range n, me, base, tree, fin, chg, R, S, false⟩
     let ops ← if (words body).isEmpty then some [] else (body.splitOn ";").mapM (parseOp? c)
     some (c, ops)
   | _ => none
@@ -236,14 +253,28 @@ def showQueries (c : Cfg) (s : St) (q : Sets) (byz : Bool) : String :=
 def goodVotes (c : Cfg) (l : List (Nat × Vote)) : Bool :=
   l.all fun kv => decide (kv.2.blk < c.t.size) && c.t.le c.fin kv.2.blk
 
-/-- output of one case; `ghost`: the pre-voted block is the GRANDPA-GHOST of the specification -/
-def render (c : Cfg) (ops : List Op) (ghost : Bool) : String :=
-  let (s, res) := ops.foldl (fun (acc : St × List String) op =>
+/-- run the ops of a line: the configuration changes with `init` -/
+def runOps (c0 : Cfg) (ops : List POp) : Cfg × St × List String :=
+  ops.foldl (fun (acc : Cfg × St × List String) op =>
+    let c := acc.1
+    let s := acc.2.1
     match op with
-    | .msg m =>
-      let r := validateVoteMessage c acc.1 m
-      (r.2, acc.2 ++ [match r.1 with | some e => showErr e | none => "ok"])
-    | .own stage b => (ownVote c acc.1 stage b, acc.2 ++ ["ok"])) (({} : St), [])
+    | .msg stage key blk num sig mr ms =>
+      let mround := mr.getD c.round
+      let mset := ms.getD c.set
+      let r := validateVoteMessage c s ⟨stage, key, blk, num, sig mround mset, mround, mset⟩
+      (c, r.2, acc.2.2 ++ [match r.1 with | some e => showErr e | none => "ok"])
+    | .own stage b =>
+      let r := stepAll (c, s) (.own stage b)
+      (r.1, r.2, acc.2.2 ++ [if b < c.t.size ∧ c.t.le c.fin b then "ok" else "skip"])
+    | .init i =>
+      let r := initiateRound c s i
+      let vs := ",".intercalate (r.1.voters.map keyName)
+      (r.1, r.2, acc.2.2 ++ [s!"init:{r.1.set}:{r.1.round}:{blkName r.1 r.1.fin}:{vs}"])) (c0, ({} : St), [])
+
+/-- output of one case; `ghost`: the pre-voted block is the GRANDPA-GHOST of the specification -/
+def render (c0 : Cfg) (ops : List POp) (ghost : Bool) : String :=
+  let (c, s, res) := runOps c0 ops
   if !(goodVotes c s.pv && goodVotes c s.pc) then "NOT-GOOD"
   else
     let byz := decide (c.n < 3 * s.pce.length)
